@@ -67,6 +67,7 @@ func (e *FuncEnc) checkEnsures(ret *ssa.Return) {
 		}
 		e.obligeNamed(cl.Name, fmt.Sprintf("ret%d", e.retCount), f, ret.Pos())
 		e.Obls[len(e.Obls)-1].Props = cl.Props
+		e.Obls[len(e.Obls)-1].Clause = cl.Name
 	}
 	if c.RetHook != nil {
 		for _, nf := range c.RetHook(e, e.results) {
